@@ -30,7 +30,7 @@ ASSUMPTIONS = [
 
 
 def budget(tier):
-    return dict(examples=120, seconds=40) if tier == "quick" else dict(examples=2000, seconds=420)
+    return dict(examples=100, seconds=30) if tier == "quick" else dict(examples=1500, seconds=300)
 
 
 # ------------------------------------------------------------------------------------------------ generation
